@@ -1,4 +1,129 @@
-import MidiModel.Live
+import Proofs.LiveInv
+import Proofs.LiveProj
+/-!
+# C14 — the listen options filter exactly their message class and nothing else
+
+Model: `MidiModel/Live.lean`. `listen c toks` = what the listener of `midi.ListenTo` on a `testdrv` port
+receives under the options `c` (sysex, active sense, time code, sysex buffer size) for the token stream `toks`
+(bytes and clock ticks: every chunking of every byte stream, not only well-formed ones), as a list of
+(message, time stamp). `allOn c` switches the three options on and keeps the buffer size; `keepMsg c` judges the
+delivered message by its first byte. The statement is an equation between lists, so content, order, time stamps
+and multiplicities are preserved. Proof: simulation between the two decoder runs on the raw-frame level
+(`raw_projection`), then through the re-typing of `midi.ListenTo` (`retype_keeps_class`).
+Helper lemmas: `Proofs/LiveProj.lean`, `Proofs/LiveInv.lean`.
+-/
 namespace Midi.C14
-theorem placeholder : True := trivial
+open Midi Midi.Live
+
+/-! ## the definitions used below, spelled out -/
+
+theorem allOn_def (c : Cfg) : allOn c = ⟨true, c.buf, true, true⟩ := rfl
+
+/-- `keepMsg c` drops exactly: active sense (first byte FE) if `c.as` is off, timing clock (F8) if `c.tc` is
+    off, sysex (F0) if `c.sysex` is off -/
+theorem keepMsg_def (c : Cfg) (h : Nat) (r : Bytes) (t : Int) :
+    keepMsg c (some (h :: r), t) = !((h = 0xFE && !c.as) || (h = 0xF8 && !c.tc) || (h = 0xF0 && !c.sysex)) := rfl
+
+/-! ## raw frames: the decoder's control state does not depend on the options -/
+
+/-- From any state satisfying the decoder invariant: the frames that pass the option filter under `c` are the
+    frames of the all-on run that pass the same filter (with sysex off the decoder assembles nothing, the all-on
+    run's sysex frames start with F0 and are filtered; everything else is identical frame by frame). -/
+theorem raw_projection (c : Cfg) (s : St) (toks : List Tok) (hi : Inv (allOn c) s) :
+    (feed c s toks).2.filter (keep c) = (feed (allOn c) s toks).2.filter (keep c) :=
+  frames_projection c toks s hi
+
+/-- `retype` never moves a frame the reader can produce into another class: it keeps the first byte … -/
+theorem retype_first_byte (c : Cfg) (f : Frame) (hw : WfFrame c f) (m : Option Bytes) (hr : retype f.1 = some m) :
+    ∃ bs, m = some bs ∧ bs.head? = f.1.head? := by
+  rcases retype_wf c f hw with ⟨_, hn⟩ | ⟨_, bs, hbs, _, hh⟩
+  · rw [hn] at hr; cases hr
+  · rw [hbs] at hr; exact ⟨bs, (Option.some.inj hr).symm, hh⟩
+
+/-- … so the filter on the raw frame (in the driver) and the filter on the delivered message agree -/
+theorem retype_keeps_class (c c' : Cfg) (f : Frame) (hw : WfFrame c' f) (m : Option Bytes)
+    (hr : retype f.1 = some m) : keepMsg c (m, f.2) = keep c f :=
+  keepMsg_retype c c' f hw m hr
+
+/-! ## the property -/
+
+/-- For every configuration and every token stream: the listener receives exactly what it would receive with all
+    options on, minus the messages of the classes whose option is off. -/
+theorem filter_projection (c : Cfg) (toks : List Tok) :
+    listen c toks = (listen (allOn c) toks).filter (keepMsg c) :=
+  listenFrames_projection c toks init (init_inv (allOn c))
+
+/-- the same when listening starts in the middle of anything (any decoder state satisfying the invariant) -/
+theorem filter_projection_from (c : Cfg) (s : St) (toks : List Tok) (hi : Inv (allOn c) s) :
+    listenFrames c (feed c s toks).2 = (listenFrames (allOn c) (feed (allOn c) s toks).2).filter (keepMsg c) :=
+  listenFrames_projection c toks s hi
+
+/-! ## corollaries named by the property -/
+
+/-- order is preserved: what is received is a subsequence of the all-on run -/
+theorem order_preserved (c : Cfg) (toks : List Tok) : (listen c toks).Sublist (listen (allOn c) toks) := by
+  rw [filter_projection]; exact List.filter_sublist
+
+/-- messages of enabled classes are unchanged: restricted to any set of messages the options let through, the
+    two runs deliver the same list (content, order, time stamps, multiplicity) -/
+theorem enabled_unchanged (c : Cfg) (toks : List Tok) (p : Option Bytes × Int → Bool)
+    (hp : ∀ m, p m = true → keepMsg c m = true) :
+    (listen c toks).filter p = (listen (allOn c) toks).filter p := by
+  rw [filter_projection, List.filter_filter]
+  apply List.filter_congr
+  intro m _
+  cases h : p m with
+  | false => rfl
+  | true => simp [hp m h]
+
+/-- nothing else is lost -/
+theorem nothing_else_lost (c : Cfg) (toks : List Tok) :
+    ∀ m ∈ listen (allOn c) toks, keepMsg c m = true → m ∈ listen c toks := by
+  intro m hm hk
+  rw [filter_projection]; exact List.mem_filter.mpr ⟨hm, hk⟩
+
+/-- no message of a disabled class gets through, and nothing is invented -/
+theorem disabled_removed (c : Cfg) (toks : List Tok) :
+    ∀ m ∈ listen c toks, keepMsg c m = true ∧ m ∈ listen (allOn c) toks := by
+  intro m hm
+  rw [filter_projection] at hm
+  exact ⟨(List.mem_filter.mp hm).2, (List.mem_filter.mp hm).1⟩
+
+/-- two option sets (same buffer size) deliver the same list of the messages both let through: switching an
+    option does not disturb running status, the message after a filtered one, or any other class -/
+theorem options_independent (c c' : Cfg) (toks : List Tok) (hb : c.buf = c'.buf) :
+    (listen c toks).filter (fun m => keepMsg c m && keepMsg c' m) =
+    (listen c' toks).filter (fun m => keepMsg c m && keepMsg c' m) := by
+  have ha : allOn c = allOn c' := by simp [allOn, hb]
+  rw [enabled_unchanged c toks _ (fun m h => by simp at h; exact h.1),
+      enabled_unchanged c' toks _ (fun m h => by simp at h; exact h.2), ha]
+
+/-! ## non-vacuity (evaluated by the kernel) -/
+
+def bytes (l : List Nat) : List Tok := l.map .byte
+
+/-- note-on, clock inside running status, active sense, a sysex with a clock inside, a lone F7, program change;
+    three chunks at 0, 5, 12 ms -/
+def sample : List Tok :=
+  .tick 0 :: bytes [0x90, 0x3C, 0xF8, 0x40, 0xFE, 0x3E] ++ .tick 5 :: bytes [0x41, 0xF0, 0x01, 0xF8, 0x02] ++
+  .tick 7 :: bytes [0xF7, 0xF7, 0xC1, 0x05, 0xFE]
+
+example : listen ⟨true, 0, true, true⟩ sample =
+    [(some [0xF8], 0), (some [0x90, 0x3C, 0x40], 0), (some [0xFE], 0), (some [0x90, 0x3E, 0x41], 5),
+     (some [0xF8], 5), (some [0xF0, 1, 2, 0xF7], 5), (some [0xC1, 5], 12), (some [0xFE], 12)] := by decide
+-- sysex and clock off
+example : listen ⟨false, 0, true, false⟩ sample =
+    [(some [0x90, 0x3C, 0x40], 0), (some [0xFE], 0), (some [0x90, 0x3E, 0x41], 5), (some [0xC1, 5], 12),
+     (some [0xFE], 12)] := by decide
+-- everything off: the filter really drops something, and really keeps something
+example : listen ⟨false, 0, false, false⟩ sample =
+    [(some [0x90, 0x3C, 0x40], 0), (some [0x90, 0x3E, 0x41], 5), (some [0xC1, 5], 12)] := by decide
+example : keepMsg ⟨false, 0, false, false⟩ (some [0xF0, 1, 2, 0xF7], 5) = false ∧
+    keepMsg ⟨false, 0, false, false⟩ (some [0x90, 0x3E, 0x41], 5) = true := by decide
+-- a state in the middle of a sysex satisfies the hypothesis of `raw_projection` / `filter_projection_from`
+example : Inv (allOn ⟨false, 8, false, false⟩) (feed (allOn ⟨false, 8, false, false⟩) init (bytes [0xF0, 1, 2])).1 :=
+  (feed_inv _ _ init (init_inv _)).1
+example : WfFrame ⟨true, 8, true, true⟩ ([0xC1, 5, 0], 12) ∧ retype [0xC1, 5, 0] = some (some [0xC1, 5]) := by
+  refine ⟨Or.inr (Or.inl ⟨0xC1, 5, 0, rfl, by omega, by omega, Or.inl (by omega)⟩), by decide⟩
+
 end Midi.C14
